@@ -837,3 +837,60 @@ func TestFirstUseC20(t *testing.T) {
 		t.Error(e)
 	}
 }
+
+// TestC20ConcurrentCalls: "the same way on every call" also when the calls overlap. The category and the name of all
+// 65536 record types are taken once, sequentially; then eight goroutines walk the whole range at the same time, each
+// with a stride of its own (so that neighbouring calls in time ask about different types and the types of different
+// categories alternate), several passes, and compare every answer with the first one.
+func TestC20ConcurrentCalls(t *testing.T) {
+	c := &checker{t: t}
+	var cat [65536]aucoalesce.AuditEventType
+	var name [65536]string
+	for i := 0; i < 65536; i++ {
+		cat[i] = aucoalesce.GetAuditEventType(auparse.AuditMessageType(i))
+		name[i] = auparse.AuditMessageType(i).String()
+	}
+	passes := 6
+	if hx.Thorough() {
+		passes = 60
+	}
+	strides := []int{1, 3, 101, 1301, 7, 65535, 257, 1099}
+	type bad struct {
+		typ        int
+		what, want string
+	}
+	res := make(chan *bad, len(strides))
+	var start sync.WaitGroup
+	start.Add(1)
+	for g, st := range strides {
+		go func(g, st int) {
+			start.Wait()
+			for p := 0; p < passes; p++ {
+				for k, i := 0, g*8191%65536; k < 65536; k, i = k+1, (i+st)%65536 {
+					// around the borders of the categories the walk looks at both sides alternately
+					for _, j := range [2]int{i, (i ^ 1) % 65536} {
+						if got := aucoalesce.GetAuditEventType(auparse.AuditMessageType(j)); got != cat[j] {
+							res <- &bad{j, fmt.Sprintf("categorised as %v (%d)", got, got), fmt.Sprintf("%v (%d)", cat[j], cat[j])}
+							return
+						}
+					}
+					if got := auparse.AuditMessageType(i).String(); got != name[i] {
+						res <- &bad{i, "named " + got, name[i]}
+						return
+					}
+				}
+			}
+			res <- nil
+		}(g, st)
+	}
+	start.Done()
+	for range strides {
+		if b := <-res; b != nil {
+			c.fail("record-type", fmt.Sprint(b.typ), "while eight goroutines asked about all record types at the same time: %s; asked alone, before: %s", b.what, b.want)
+			return
+		}
+	}
+	for i := 0; i < 65536; i += 257 {
+		c.entry("record-type-concurrent", fmt.Sprint(i))
+	}
+}
